@@ -586,6 +586,58 @@ def case_multi(rng, k) -> Case:
     return Case(ops=ops, tag="multi")
 
 
+def case_poison(rng, k) -> Case:
+    """C11-1: manifests without replica (ingest on either node, admitted announces on the importer) for an id that is held"""
+    tn = rng.choice(COMMON_CONFIGS)
+    cid = _id(rng, k)
+    size = rng.choice([1, 5, 64, 100])
+    ops = [_cfg(rng, tn, WINDOWS[0], sub=0), f"store {cid} {_payload(rng, size)} 3600 {_rng_tok(rng)}"]
+    if rng.random() < 0.8:
+        ops.append(rng.choice(["receive none", "announce a none 1"]))
+        if ops[-1].startswith("announce"):
+            ops.append("deliver a none")
+    forged = ["shard-in", "shard-in", "hash", "nonce", "sidx-new", "thr-less", "thr-more", "rev", "none", "exp-future", "drop-first", "combo"]
+    for _ in range(rng.randint(1, 5)):
+        c = corruption(rng, tn, size)
+        if rng.random() < 0.6:   # a corruption that changes the key the shares stand for
+            t, n = _eff(tn)
+            c = rng.choice([f"shard:{rng.randrange(t)}:{rng.randrange(32)}:{rng.randint(1, 255)}", f"sidx:{rng.randrange(t)}:{rng.choice([n + 1, 200])}",
+                            f"hash:{rng.randrange(32)}:{rng.randint(1, 255)}", "rev" if t < n else "none", f"thr:{t + 1}" if t < n else "none"])
+        r = rng.random()
+        if r < 0.35:
+            ops.append(f"ingest a {c}")
+        elif r < 0.7:
+            ops.append(f"ingest b {c}")
+        else:
+            ops.append(f"announce {rng.choice(['a', 'x'])} {c} {rng.choice([0, 1])}")
+        if rng.random() < 0.4:
+            ops.append(f"fetch {rng.choice(['a', 'b'])} {cid}")
+    ops += [f"fetch a {cid}", f"fetch b {cid}", "serve"]
+    return Case(ops=ops, tag="poison")
+
+
+def case_replicate(rng, k) -> Case:
+    """the replication chain over the planted sessions: announce, serve, CHUNKs from the publisher and from a third peer"""
+    tn = rng.choice(COMMON_CONFIGS)
+    cid = _id(rng, k)
+    size = rng.choice([0, 1, 63, 64, 65, 100, 4096])
+    ops = [_cfg(rng, tn, rng.choice(WINDOWS[:3]), sub=rng.choice([0, 0, 500_000_000])), f"store {cid} {_payload(rng, size)} {rng.choice([0, 3600])} {_rng_tok(rng)}"]
+    if rng.random() < 0.85:
+        ops.append(f"announce {rng.choice(['a', 'a', 'x'])} {rng.choice(['none', 'none', 'none', 'rev', corruption(rng, tn, size)])} {rng.choice([1, 1, 0])}")
+    ops.append("serve")
+    for _ in range(rng.randint(1, 4)):
+        ops.append(f"deliver {rng.choice(['a', 'x'])} {corruption(rng, tn, size)}")
+    ops.append(f"deliver {rng.choice(['a', 'x'])} none")
+    ops.append(f"fetch b {cid}")
+    for _ in range(rng.randint(0, 2)):
+        ops.append(f"deliver x {corruption(rng, tn, size)}")
+    if rng.random() < 0.4:
+        ops.append(f"announce x {corruption(rng, tn, size)} 1")
+        ops.append(f"deliver x {rng.choice(['none', corruption(rng, tn, size)])}")
+    ops += [f"fetch b {cid}", "serve"]
+    return Case(ops=ops, tag="replicate")
+
+
 def generate(ctx, budget):
     rng = ctx.rng
     cases = []
@@ -601,7 +653,7 @@ def generate(ctx, budget):
     k = 200
     while len(cases) < budget:
         k += 1
-        shape = rng.choices(["roundtrip", "tamper", "ttl", "zero", "multi"], weights=[22, 50, 12, 4, 12])[0]
+        shape = rng.choices(["roundtrip", "tamper", "ttl", "zero", "multi", "poison", "replicate"], weights=[16, 36, 10, 4, 10, 12, 12])[0]
         if shape == "roundtrip":
             cases.append(case_roundtrip(rng, k))
         elif shape == "tamper":
@@ -610,6 +662,10 @@ def generate(ctx, budget):
             cases.append(case_ttl(rng, k))
         elif shape == "zero":
             cases.append(case_zero_key(rng, k))
+        elif shape == "poison":
+            cases.append(case_poison(rng, k))
+        elif shape == "replicate":
+            cases.append(case_replicate(rng, k))
         else:
             cases.append(case_multi(rng, k))
     # large payloads: 64 KiB always, 1 MiB in the thorough tier (counter from the id next to the 32-bit wrap)
@@ -627,7 +683,7 @@ def nontrivial(r: CaseResult) -> bool:
     """a case counts when a store of a (non-excluded) chunk was answered well-formed and at least one look-up, import or CLI
     decryption of it ran"""
     stored = any(op.startswith("store ") and out.startswith("ok held=") and " zk" not in op for op, out in zip(r.case.ops, r.impl))
-    used = any(op.split(" ")[0] in ("fetch", "receive", "cli") and (out.startswith(("hit", "miss", "accept", "reject", "ok", "null")))
+    used = any(op.split(" ")[0] in ("fetch", "receive", "cli", "deliver", "serve") and (out.startswith(("hit", "miss", "accept", "reject", "ok", "null", "ack=", "chunk", "nack")))
                for op, out in zip(r.case.ops, r.impl))
     return stored and used
 
@@ -681,6 +737,7 @@ def spec() -> Spec:
     return Spec(
         pid=PID,
         proof_modules=["EphVerif.Proofs.C11"],
+        soft_proof_modules=["EphVerif.Proofs.SystemReplication"],
         driver="drv_c11",
         harness=harness,
         generate=generate,
